@@ -14,6 +14,18 @@ type Adversary struct {
 	keys  []*PrivKey
 	made  int
 	cache map[advKey]*Payload // equivocation memory: what was told to which faction
+	sent  map[advSent]bool
+	mode  map[uint32]uint64 // per height: 0 random actions, 1 yes-man, 2 equivocating primary + yes-man
+}
+
+// advSent remembers what a faulty identity already told a node in an epoch
+// (the strategic modes send each helpful payload once).
+type advSent struct {
+	ident  int
+	target int
+	h      uint32
+	v      byte
+	t      dbft.MessageType
 }
 
 type advKey struct {
@@ -25,7 +37,7 @@ type advKey struct {
 }
 
 func newAdversary(s *Sim, keys []*PrivKey) *Adversary {
-	return &Adversary{s: s, keys: keys, cache: map[advKey]*Payload{}}
+	return &Adversary{s: s, keys: keys, cache: map[advKey]*Payload{}, sent: map[advSent]bool{}, mode: map[uint32]uint64{}}
 }
 
 func (a *Adversary) active() bool { return len(a.keys) > 0 && a.s.sc.AdvPM > 0 }
@@ -72,6 +84,29 @@ func (a *Adversary) act() {
 		return
 	}
 	t := ts[tape.Draw(SAdv, uint64(len(ts)))]
+	// strategy of the faulty identities at this height: mostly random actions, sometimes the
+	// worst case for any quorum weakness - tell every node what it wants to hear
+	hh := t.d.BlockIndex
+	m, ok := a.mode[hh]
+	if !ok {
+		m = tape.Draw(SAdv, 4)
+		if m == 3 {
+			m = 0
+		}
+		a.mode[hh] = m
+		for k := range a.mode {
+			if k+4 < hh {
+				delete(a.mode, k)
+			}
+		}
+		if len(a.sent) > 20000 {
+			a.sent = map[advSent]bool{}
+		}
+	}
+	if m != 0 {
+		a.yesman(ts, m == 2)
+		return
+	}
 	k := a.keys[tape.Draw(SAdv, uint64(len(a.keys)))]
 	d := t.d
 	h, v := d.BlockIndex, d.ViewNumber
@@ -181,6 +216,17 @@ func (a *Adversary) proposalFor(t *Node, k *PrivKey, idx int, h uint32, v byte) 
 			hs = append(hs, tx.Hash())
 		}
 	}
+	if s.tape.Chance(SAdv, 1, 3) {
+		// a transaction that exists but that this target does not hold yet: it will ask
+		// for it, and whatever reaches it meanwhile meets a node with an incomplete proposal
+		for _, tx := range sortedHashes(s.allTx) {
+			if _, has := t.pool[tx.Hash()]; !has && !tx.Invalid && len(hs) < s.sc.MaxTxPerBlock+1 {
+				hs = append(hs, tx.Hash())
+				s.fault("adv:proposal_with_tx_missing_at_target")
+				break
+			}
+		}
+	}
 	if s.sc.TxMissing && s.tape.Chance(SAdv, 1, 4) {
 		var w hasher
 		w.str("nonexistent-tx")
@@ -240,4 +286,76 @@ func (a *Adversary) recoveryFor(t *Node, k *PrivKey, idx int, h uint32, v byte) 
 		cnt++
 	}
 	return &Payload{T: dbft.RecoveryMessageType, H: h, V: view, Idx: uint16(idx), Body: rm}
+}
+
+// yesman: every faulty identity helps every node along whatever that node currently
+// holds - a matching response, a valid (pre)commit for the block the node would build,
+// an echo of its change-view request - and, as primary (split mode), proposes something
+// different to every faction.  Each payload is sent once per (identity, node, epoch).
+func (a *Adversary) yesman(ts []*Node, split bool) {
+	s := a.s
+	budget := 6
+	start := int(s.tape.Draw(SAdv, uint64(len(ts))))
+	for i := 0; i < len(ts) && budget > 0; i++ {
+		t := ts[(start+i)%len(ts)]
+		d := t.d
+		if d == nil || d.BlockSent() {
+			continue
+		}
+		h, v := d.BlockIndex, d.ViewNumber
+		nv := len(s.sc.ValsAt(h))
+		prim := primaryOf(h, v, nv)
+		for _, k := range a.keys {
+			if budget <= 0 {
+				break
+			}
+			idx := s.sc.IndexAt(h, k.ID)
+			if idx < 0 {
+				continue
+			}
+			once := func(typ dbft.MessageType) bool {
+				key := advSent{k.ID, t.id, h, v, typ}
+				if a.sent[key] {
+					return false
+				}
+				a.sent[key] = true
+				return true
+			}
+			mk := func(typ dbft.MessageType, body any) *Payload {
+				return &Payload{T: typ, H: h, V: v, Idx: uint16(idx), Body: body}
+			}
+			q := d.PreparationPayloads[d.PrimaryIndex]
+			switch {
+			case q == nil && idx == prim && split:
+				if once(dbft.PrepareRequestType) {
+					a.inject(t, a.proposalFor(t, k, idx, h, v), k)
+					budget--
+				}
+			case q != nil && q.Type() == dbft.PrepareRequestType:
+				if idx != prim && once(dbft.PrepareResponseType) {
+					a.inject(t, mk(dbft.PrepareResponseType, &PrepResp{Prep: q.Hash()}), k)
+					budget--
+				}
+				if hdr, ok := headerFor(t); ok && len(d.TransactionHashes) == len(d.Transactions) {
+					if s.sc.amevAt(h) {
+						if once(dbft.PreCommitType) {
+							ph := hdr.hash("preblock")
+							a.inject(t, mk(dbft.PreCommitType, &PreCommitBody{D: k.Sign(ph[:])}), k)
+							budget--
+						}
+					}
+					if once(dbft.CommitType) {
+						hdr.Final = s.sc.amevAt(h)
+						bh := hdr.hash("block")
+						a.inject(t, mk(dbft.CommitType, &CommitBody{Sig: k.Sign(bh[:])}), k)
+						budget--
+					}
+				}
+			}
+			if d.ViewChanging() && once(dbft.ChangeViewType) {
+				a.inject(t, mk(dbft.ChangeViewType, &ChView{NewView: v + 1, Rsn: dbft.CVTimeout, TS: uint64(t.clockNow().UnixNano())}), k)
+				budget--
+			}
+		}
+	}
 }
